@@ -35,3 +35,18 @@ package signingalgorithm
 //@   ensures err == nil ==> v != nil && vkey(v) == k
 //@   ensures err != nil ==> v == nil
 //@   assigns nothing
+
+// Signing side: the algorithm object is an arbitrary implementation.
+//@ uf signedWith(crypto.PublicKey, bytes, bytes) bool
+//@ iface github.com/WICG/webpackage/go/internal/signingalgorithm.SigningAlgorithm.Sign
+//@   params (a, m)
+//@   returns (sig, err)
+//@   ensures err == nil ==> signedWith(a, bytes(m), bytes(sig))
+//@   assigns nothing
+//@ func SigningAlgorithmForPrivateKey
+//@   props C01 C08
+//@   may_panic
+//@   returns (alg, err)
+//@   ensures err == nil ==> alg != nil
+//@   ensures err != nil ==> alg == nil
+//@   assigns nothing
